@@ -229,3 +229,62 @@ func (x *exec) promptLab(t *Trace) {
 		}
 	}
 }
+
+// regLab: the real emulation view over a register file that no RV64 program
+// produces; every render event grants the declared minimum plus N lines (or
+// an absurd height): no crash, never more lines than granted, a fixed height
+// exactly. A render error is not judged (the view may refuse what it cannot
+// draw).
+func (x *exec) regLab(t *Trace) {
+	var ins []parser.Instruction
+	for i := 0; i < 3; i++ {
+		ins = append(ins, parser.Instruction{Addr: model.Addr(0x1000 + 4*i), Bytes: []byte{byte(i), 0, 0, 0}, Details: labDetails{"nop"}})
+	}
+	stat := state.New()
+	for _, rs := range t.RegLab {
+		if rs.W < 1 || rs.W > 255 || rs.Name == "" || len(rs.Name) > 200 {
+			continue
+		}
+		bs := unhexLab(rs.Hex)
+		stat.Regs.Store(expr.Key(rs.Name), expr.NewConst(bs, expr.Width(rs.W)), expr.Width(rs.W))
+	}
+	var md consoleui.Mode
+	var err error
+	if fn, msg, p := core.Guard(func() {
+		var code *deps.Code
+		code, err = deps.NewCode(0x1000, ins)
+		if err == nil {
+			md, err = emulate.New(code, 0x1000, stat)
+		}
+	}); p {
+		x.fail("C24", "render-no-crash", "reglab-panic/"+fn, "building the emulation view over the register file panicked: %s", msg)
+		return
+	}
+	if err != nil || md == nil {
+		x.ctx.Probe("reglab_mode_refused")
+		return
+	}
+	x.ctx.MarkNonTrivial()
+	atomic.StoreInt64(&lastBeat, time.Now().UnixNano())
+	old := os.Stdout
+	takeOutput()
+	os.Stdout = capture
+	defer func() { os.Stdout = old }()
+	for i, ev := range t.Evs {
+		if ev.K != "render" || x.stop {
+			continue
+		}
+		x.ev = i
+		x.ctx.Event(i, fmt.Sprintf("reglab render +%d", ev.N))
+		x.directRender("emulator-composite", md.View(), ev.N)
+		x.ctx.Probe("reglab_render")
+	}
+}
+
+func unhexLab(s string) []byte {
+	out := make([]byte, len(s)/2)
+	for i := range out {
+		fmt.Sscanf(s[2*i:2*i+2], "%02x", &out[i])
+	}
+	return out
+}
